@@ -8,12 +8,10 @@
 (* cur    : block of the newest write / current block of the table           *)
 (* hi     : highest block ever written (the window is relative to it)        *)
 (* lastOp : label of the last action, only used to print edges (VIEW-hidden) *)
-EXTENDS Naturals, Integers, FiniteSets, Sequences, SequencesExt, FiniteSetsExt, TLC, Json
+EXTENDS HistOps, Sequences, SequencesExt, TLC, Json
 
-CONSTANTS W,        \* MAX_REORG_HISTORY_SIZE
-          Vals,     \* the value alphabet (small positive integers)
+CONSTANTS Vals,     \* the value alphabet (small positive integers)
           Blocks,   \* the block numbers a run may use (includes 0)
-          NoVal,    \* Option::None
           DumpEdges \* TRUE: print one JSON line per transition
 
 VARIABLES hist, truth, cur, hi, lastOp
@@ -24,21 +22,7 @@ View == <<hist, truth, cur, hi>>
 MaxB == Max(Blocks)
 Opt  == Vals \cup {NoVal}
 
-Keys(h)   == DOMAIN h
-MaxKey(h) == Max(Keys(h))
-Latest(h) == h[MaxKey(h)]
 
-Defined(h, n) == \E k \in Keys(h) : k <= n
-ValueAt(h, n) == h[Max({k \in Keys(h) : k <= n})]
-
-(* remove_old_values(latest): of the keys with key + W <= latest keep only the newest *)
-Prune(h, latest) ==
-  LET old == {k \in Keys(h) : k + W <= latest}
-  IN  IF old = {} THEN h
-      ELSE LET keep == (Keys(h) \ old) \cup {Max(old)}
-           IN  [k \in keep |-> h[k]]
-
-Put(h, b, v) == [k \in Keys(h) \cup {b} |-> IF k = b THEN v ELSE h[k]]
 
 (* the successor WITHOUT pruning: the semantics a straightforward map has *)
 SemWrite(h, b, v) == Put(h, b, v)
@@ -128,7 +112,6 @@ NeverSilentlyWrong ==
   \A n \in 0..cur : n + W < hi => (~Defined(hist, n) \/ ValueAt(hist, n) = truth[n])
 
 (* is_old(b) is exactly "newest version more than W below b" *)
-IsOld(h, b) == MaxKey(h) + W < b
 
 -----------------------------------------------------------------------------
 (* Edge printing for per-transition conformance.  For each transition        *)
